@@ -14,22 +14,48 @@ Proof.
   intros H. inversion H; subst. unfold ilen in *. rewrite skipn_length. lia.
 Qed.
 
+Ltac take_facts :=
+  repeat match goal with
+         | H : take _ _ = Some (_, _) |- _ => apply take_len in H
+         end.
+Ltac crunch :=
+  repeat match goal with
+         | |- context [match take ?n ?d with _ => _ end] => destruct (take n d) as [[? ?]|] eqn:?
+         | |- context [if ?c then _ else _] => destruct c eqn:?
+         end;
+  intros; try discriminate;
+  repeat match goal with H : Some _ = Some _ |- _ => inversion H; clear H; subst end;
+  take_facts; try lia.
+
 (* ------------------------------------------------------------------------------------------ *)
 (* (f2) format 2 entry loop                                                                    *)
 (* ------------------------------------------------------------------------------------------ *)
+Lemma f2_feat_len flags d0 b d4 : f2_feat flags d0 = Some (b, d4) -> ilen d4 <= ilen d0.
+Proof. unfold f2_feat. crunch. Qed.
+Lemma f2_child_len flags d4 n b d6 : f2_child flags d4 n = Some (b, d6) -> ilen d6 <= ilen d4.
+Proof. unfold f2_child. cbv zeta. crunch. Qed.
+Lemma f2_delta_len flags d6 v d7 : f2_delta flags d6 = Some (v, d7) -> ilen d7 <= ilen d6.
+Proof. unfold f2_delta. crunch. Qed.
+Lemma f2_pfmt_len flags d7 dflt v d8 : f2_pfmt flags d7 dflt = Some (v, d8) -> ilen d8 <= ilen d7.
+Proof. unfold f2_pfmt. crunch. Qed.
+
 Section F2Proofs.
   Variable sbs : list Z -> Z -> option (list Z).
   (* the sparse-bit-set decoder hands back (a suffix of) its input: never more data than it was given *)
   Hypothesis sbs_shrinks : forall d b r, sbs d b = Some r -> ilen r <= ilen d.
 
-  Ltac take_facts :=
-    repeat match goal with
-           | H : take _ _ = Some (_, _) |- _ => apply take_len in H
-           | H : sbs _ _ = Some _ |- _ => apply sbs_shrinks in H
-           end.
+  Lemma f2_codepoints_len flags cp r : f2_codepoints sbs flags cp = Some r -> ilen r <= ilen cp.
+  Proof.
+    unfold f2_codepoints. cbv zeta.
+    destruct (Z.land flags 48 =? 0); [intros H; inversion H; lia|].
+    destruct (Z.land flags 48 =? 32).
+    - destruct (take 2 cp) as [[b r0]|] eqn:T; [|discriminate]. intros H. apply sbs_shrinks in H. apply take_len in T. lia.
+    - destruct (Z.land flags 48 =? 48).
+      + destruct (take 3 cp) as [[b r0]|] eqn:T; [|discriminate]. intros H. apply sbs_shrinks in H. apply take_len in T. lia.
+      + intros H. apply sbs_shrinks in H. lia.
+  Qed.
 
-  (* one entry: never a panic; a decoded entry consumes at least its flags byte and at most the data;
-     its id is a u32 *)
+  (* one entry: never a panic; a decoded entry consumes at least its flags byte and at most the data; its id is a u32 *)
   Lemma f2_entry_ok data start nprior last_id dflt :
     match f2_entry sbs data start nprior last_id dflt with
     | E2Ok (id, _, _, _) rest consumed =>
@@ -39,20 +65,183 @@ Section F2Proofs.
     end.
   Proof.
     unfold f2_entry.
-    repeat match goal with
-           | |- context [match take ?n ?d with _ => _ end] => destruct (take n d) as [[? ?]|] eqn:?
-           | |- context [match sbs ?d ?b with _ => _ end] => destruct (sbs d b) eqn:?
-           | |- context [if ?c then _ else _] => destruct c eqn:?
-           | |- match (let '(_, _) := ?p in _) with _ => _ end => destruct p
-           | |- True => exact I
-           end;
-      try exact I; try discriminate;
-      repeat match goal with
-             | H : Some _ = Some _ |- _ => inversion H; clear H; subst
-             | H : None = Some _ |- _ => discriminate H
-             | H : Some _ = None |- _ => discriminate H
-             end;
-      take_facts; try lia;
-      try (repeat split; lia).
+    destruct (take 1 data) as [[fl d0]|] eqn:T0; [|exact I]. cbv zeta.
+    destruct (f2_feat (be_val fl) d0) as [[sok d4]|] eqn:E1; [|exact I].
+    destruct (f2_child (be_val fl) d4 nprior) as [[cok d6]|] eqn:E2; [|exact I].
+    destruct (f2_delta (be_val fl) d6) as [[dv d7]|] eqn:E3; [|exact I].
+    destruct (f2_pfmt (be_val fl) d7 dflt) as [[pf cp]|] eqn:E4; [|exact I].
+    destruct (negb cok); [exact I|]. destruct (negb sok); [exact I|].
+    destruct ((last_id + 1 + dv <? 0) || (4294967295 <? last_id + 1 + dv)) eqn:Eid; [exact I|].
+    destruct (negb ((pf =? 1) || (pf =? 2) || (pf =? 3))); [exact I|].
+    destruct (f2_codepoints sbs (be_val fl) cp) as [rest|] eqn:E5; [|exact I].
+    apply take_len in T0. apply f2_feat_len in E1. apply f2_child_len in E2. apply f2_delta_len in E3.
+    apply f2_pfmt_len in E4. apply f2_codepoints_len in E5.
+    destruct (ilen data <? ilen rest) eqn:El; [lia|]. repeat split; lia.
+  Qed.
+
+  (* the loop: with fuel > #data it never runs out of fuel and never panics; what it returns has exactly
+     entry_count entries (for a positive count), at most one per data byte, all ids u32 *)
+  Lemma f2_loop_ok : forall fuel dflt count data start acc,
+    (length data < fuel)%nat ->
+    match f2_loop sbs fuel dflt count data start acc with
+    | F2Ok es => Z.of_nat (length es) = Z.of_nat (length acc) + Z.max 0 count /\
+                 Z.max 0 count <= ilen data
+    | F2Err => True
+    | F2Panic => False
+    | F2OutOfFuel => False
+    end.
+  Proof.
+    induction fuel as [|f IH]; intros dflt count data start acc Hf; [lia|].
+    cbn [f2_loop]. destruct (count <=? 0) eqn:Ec.
+    - cbv beta iota. rewrite rev_length. pose proof (ilen_nonneg data). lia.
+    - pose proof (f2_entry_ok data start (ilen acc)
+                    (match acc with (id, _, _, _) :: _ => id | [] => 0 end) dflt) as He.
+      destruct (f2_entry sbs data start (ilen acc) (match acc with (id, _, _, _) :: _ => id | [] => 0 end) dflt)
+        as [[[[id pf] ign] bit] rest consumed| |]; [|exact I|contradiction].
+      destruct He as (Hlt & Hc & H1 & Hid).
+      assert (Hf' : (length rest < f)%nat) by (unfold ilen in *; lia).
+      specialize (IH dflt (count - 1) rest (start + consumed) ((id, pf, ign, bit) :: acc) Hf').
+      match goal with |- match ?X with _ => _ end =>
+        change (f2_loop sbs f dflt (count - 1) rest (start + consumed) ((id, pf, ign, bit) :: acc)) with X in IH;
+        revert IH; generalize X; intros R IH; destruct R; auto end.
+      cbv beta iota in IH |- *. cbn [length] in IH. unfold ilen in *. lia.
+  Qed.
+
+  Lemma f2_decode_total_lemma : forall dflt count off data,
+    match f2_decode sbs dflt count off data with
+    | F2Ok es => Z.of_nat (length es) = Z.max 0 count /\ Z.max 0 count <= ilen data
+    | F2Err => True
+    | F2Panic => False
+    | F2OutOfFuel => False
+    end.
+  Proof.
+    intros. unfold f2_decode. destruct (negb ((dflt =? 1) || (dflt =? 2) || (dflt =? 3))); [exact I|].
+    pose proof (f2_loop_ok (S (length data)) dflt count data off [] ltac:(lia)) as H.
+    remember (f2_loop sbs (S (length data)) dflt count data off []) as R eqn:ER. clear ER. destruct R; auto; try (cbv beta iota in H |- *; cbn [length] in H; lia).
   Qed.
 End F2Proofs.
+
+(* the i64 id computation of compute_format2_new_entry_index cannot overflow *)
+Lemma f2_id_arith_no_overflow : forall last_id dv, 0 <= last_id <= 4294967295 -> -8388608 <= dv <= 8388607 ->
+  -9223372036854775808 <= last_id + 1 + dv <= 9223372036854775807.
+Proof. intros. lia. Qed.
+
+(* ------------------------------------------------------------------------------------------ *)
+(* (f1) format 1 feature map: the up-front size check makes the record indexing safe            *)
+(* ------------------------------------------------------------------------------------------ *)
+Definition sumc (recs : list (Z * Z * Z)) : Z := fold_right (fun r acc => snd r + acc) 0 recs.
+Definition rec_ok (r : Z * Z * Z) : Prop :=
+  let '(_, first_new, count) := r in 0 <= count /\ 0 <= first_new /\ first_new + count <= 65536.
+
+Lemma entry_records_size_sum w recs : entry_records_size w recs = sumc recs * w * 2.
+Proof.
+  unfold entry_records_size.
+  assert (G : forall acc, fold_left (fun a r => a + snd r * w * 2) recs acc = acc + sumc recs * w * 2).
+  { induction recs as [|r rs IH]; intros acc; cbn [fold_left sumc fold_right]; [lia|]. rewrite IH. fold (sumc rs). lia. }
+  rewrite G. lia.
+Qed.
+
+Lemma sumc_nonneg recs : Forall rec_ok recs -> 0 <= sumc recs.
+Proof.
+  induction 1 as [|[[t f] c] rs H _ IH]; cbn [sumc fold_right snd]; [lia|]. fold (sumc rs). destruct H. lia.
+Qed.
+
+(* the inner loop never panics when every index it forms lies below the (u16-representable) size that the
+   up-front check compared with the data length, and first_new + i stays a u16 *)
+Lemma f1_record_loop_safe : forall n i w maxe maxg cum first_new data entries,
+  (w = 1 \/ w = 2) -> 0 <= i -> 0 <= cum -> 0 <= first_new ->
+  (cum + i + Z.of_nat n) * w * 2 <= ilen data -> (cum + i + Z.of_nat n) * w * 2 <= 65535 ->
+  first_new + i + Z.of_nat n <= 65536 ->
+  f1_record_loop n i w maxe maxg cum first_new data entries <> StPanic.
+Proof.
+  induction n as [|n IH]; intros i w maxe maxg cum first_new data entries Hw Hi Hc Hf Hd Hu Hn; cbn [f1_record_loop]; [discriminate|].
+  unfold add_u16, mul_u16, U16_MAX.
+  destruct (65535 <? i + cum) eqn:E1; [destruct Hw; subst; lia|].
+  destruct (65535 <? (i + cum) * w) eqn:E2; [destruct Hw; subst; lia|].
+  destruct (65535 <? (i + cum) * w * 2) eqn:E3; [destruct Hw; subst; lia|].
+  destruct (ilen data <? (i + cum) * w * 2) eqn:E4; [destruct Hw; subst; lia|].
+  destruct (65535 <? first_new + i) eqn:E5; [lia|].
+  destruct (read_w w data ((i + cum) * w * 2)); [|discriminate].
+  destruct (read_w w data ((i + cum) * w * 2 + w)); [|discriminate].
+  apply IH; try assumption; try lia.
+Qed.
+
+Lemma f1_walk_safe : forall fuel w maxe maxg data tags recs cum largest entries,
+  (w = 1 \/ w = 2) -> 0 <= cum -> Forall rec_ok recs ->
+  (cum + sumc recs) * w * 2 <= ilen data -> (cum + sumc recs) * w * 2 <= 65535 ->
+  f1_walk fuel w maxe maxg data tags recs cum largest entries <> StPanic.
+Proof.
+  induction fuel as [|f IH]; intros w maxe maxg data tags recs cum largest entries Hw Hc Hr Hd Hu; cbn [f1_walk]; [discriminate|].
+  (* the three ways a turn continues *)
+  assert (Hskip : forall t fn c rs tg lg, recs = (t, fn, c) :: rs ->
+            match add_u16 cum c with
+            | Some c' => f1_walk f w maxe maxg data tg rs c' lg entries
+            | None => StPanic
+            end <> StPanic).
+  { intros t fn c rs tg lg ->. inversion Hr as [|? ? H1 H2]; subst. destruct H1 as (H1a & H1b & H1c).
+    cbn [sumc fold_right snd] in Hd, Hu. fold (sumc rs) in Hd, Hu. pose proof (sumc_nonneg rs H2).
+    unfold add_u16, U16_MAX. destruct (65535 <? cum + c) eqn:E; [destruct Hw; subst; lia|].
+    apply IH; try assumption; try lia; destruct Hw; subst; lia. }
+  assert (Hproc : forall t fn c rs tg lg, recs = (t, fn, c) :: rs ->
+            match f1_record_loop (Z.to_nat c) 0 w maxe maxg cum fn data entries with
+            | StOk entries' =>
+                match add_u16 cum c with
+                | Some c' => f1_walk f w maxe maxg data tg rs c' lg entries'
+                | None => StPanic
+                end
+            | other => other
+            end <> StPanic).
+  { intros t fn c rs tg lg ->. inversion Hr as [|? ? H1 H2]; subst. destruct H1 as (H1a & H1b & H1c).
+    cbn [sumc fold_right snd] in Hd, Hu. fold (sumc rs) in Hd, Hu. pose proof (sumc_nonneg rs H2).
+    pose proof (f1_record_loop_safe (Z.to_nat c) 0 w maxe maxg cum fn data entries Hw ltac:(lia) Hc H1b
+                  ltac:(destruct Hw; subst; lia) ltac:(destruct Hw; subst; lia) ltac:(lia)) as Hl.
+    destruct (f1_record_loop (Z.to_nat c) 0 w maxe maxg cum fn data entries); [|discriminate|contradiction].
+    unfold add_u16, U16_MAX. destruct (65535 <? cum + c) eqn:E; [destruct Hw; subst; lia|].
+    apply IH; try assumption; try lia; destruct Hw; subst; lia. }
+  destruct tags as [ts|].
+  - destruct ts as [|t ts']; [discriminate|]. destruct recs as [|[[rt fn] c] rs]; [discriminate|].
+    destruct (rt <? t); [apply (Hskip rt fn c rs (Some (t :: ts')) largest eq_refl)|].
+    destruct (match largest with Some l => t <=? l | None => false end); [apply IH; assumption|].
+    destruct (t <? rt); [apply IH; assumption|].
+    apply (Hproc rt fn c rs (Some (t :: ts')) (Some t) eq_refl).
+  - destruct recs as [|[[rt fn] c] rs]; [discriminate|].
+    destruct (match largest with Some l => rt <=? l | None => false end);
+      [apply (Hskip rt fn c rs None largest eq_refl)|apply (Hproc rt fn c rs None (Some rt) eq_refl)].
+Qed.
+
+(* f1_guard: whenever the record table is small enough for every index to be a u16 (sum of counts * width * 2
+   <= 65535) and no record's first_new + count leaves u16, intersecting a format-1 map never panics: the
+   up-front comparison of entry_records_size with the data length — made with the SAME field width as the
+   indexing — is what keeps entry_map_data[byte_index..] in range *)
+Lemma f1_guard_lemma : forall maxe maxg first gentries gids bitmap pf recs data feats,
+  match recs with
+  | Some rs => Forall rec_ok rs /\ sumc rs * f1_width maxe * 2 <= 65535
+  | None => True
+  end ->
+  f1_intersect maxe maxg first gentries gids bitmap pf recs data feats <> F1Panic.
+Proof.
+  intros maxe maxg first gentries gids bitmap pf recs data feats Hrec. unfold f1_intersect.
+  destruct (maxe <? maxg); [discriminate|].
+  destruct (negb ((pf =? 1) || (pf =? 2) || (pf =? 3))); [discriminate|].
+  destruct (f1_glyph_map first gentries maxg gids []); [|discriminate].
+  destruct recs as [rs|]; [|discriminate]. destruct Hrec as [Hok Hsum].
+  destruct (ilen data <? entry_records_size (f1_width maxe) rs) eqn:Esz; [discriminate|].
+  rewrite entry_records_size_sum in Esz.
+  assert (Hw : f1_width maxe = 1 \/ f1_width maxe = 2) by (unfold f1_width; destruct (maxe <? 256); auto).
+  pose proof (f1_walk_safe (S (match feats with Some f => length f | None => 0%nat end + length rs))
+                (f1_width maxe) maxe maxg data feats rs 0 None l Hw ltac:(lia) Hok ltac:(lia) ltac:(lia)) as Hs.
+  destruct (f1_walk _ _ _ _ _ _ _ _ _ _); [discriminate|discriminate|contradiction].
+Qed.
+
+(* without that arithmetic side condition the statement is false of the faithful model: u16 overflow panics
+   are reachable (replayed on the real code: patchmap.rs `first_new_entry_index + i`, `index * field_width * 2`) *)
+Lemma f1_total_refuted_lemma :
+  f1_intersect 65535 10 0 [0;1;2;3;0;1;2;3;0;1;2;3;0;1;2] [1;2;3] (repeat 0 8192) 3
+               (Some [(1818847073, 65535, 2)]) [0;1;0;2;0;1;0;2] None = F1Panic /\
+  (exists data, ilen data = 65540 /\
+     f1_intersect 65535 10 0 [0;1;2;3;0;1;2;3;0;1;2;3;0;1;2] [1;2;3] (repeat 0 8192) 3
+                  (Some [(1818847073, 100, 16385)]) data None = F1Panic).
+Proof.
+  split; [vm_compute; reflexivity|].
+  exists (repeat 0 65540). split; [vm_compute; reflexivity|vm_compute; reflexivity].
+Qed.
